@@ -1067,7 +1067,7 @@ add(Row(
     make=lambda o, s, seed: ([P.QPredictDecompositionPass(
         success_threshold=_thr(o),
     )], {'seed': seed}),
-    tol=_num_tol, weight=1.0, timeout=30.0,
+    tol=_num_tol, weight=1.0, timeout=20.0,
     note='2-qubit targets take the documented "block too large" skip path',
 ))
 
